@@ -275,18 +275,35 @@ ReduceOnlyNeverIncreasesOrFlips ==
         LET s == FillOrd.sym IN Abs(st'.pq[s]) <= Abs(st.pq[s]) /\ st'.pq[s] * st.pq[s] >= 0]_vars
 \* the position of the fill's symbol follows the reference average-cost update; other symbols are untouched;
 \* the wallet moves by -fee + realised PnL of the closed quantity at the old average
-AvgCostStep ==
-  [][IsFill =>
-        LET o == FillOrd  s == o.sym  sq == Sgn(o.side) * o.q
-            q0 == st.pq[s]  q1 == st'.pq[s]
-            closed == RefClosed(q0, q1)
-            real == IF closed = 0 THEN RI(0) ELSE RMulI(RSub(RI(o.p), st.entry[s]), IF q0 > 0 THEN closed ELSE -closed)
-            \* the fee is charged on what is filled: a reduce-only order against the position fills at most its size
-            filled == IF o.ro /\ q0 * sq < 0 THEN Min2(o.q, Abs(q0)) ELSE o.q
-        IN /\ q1 = RefQty(q0, sq, o.ro)
-           /\ RefEntryOK(q0, st.entry[s], q1, st'.entry[s], o.p)
-           /\ st'.wallet = RAdd(RSub(st.wallet, Norm(filled * o.p * FeeNum, FeeDen)), real)
-           /\ \A x \in Syms \ {s} : st'.pq[x] = st.pq[x] /\ st'.entry[x] = st.entry[x]]_vars
+\* FillOK(S, id, S1): S1 is what the reference account makes of the fill of the ACTIVE order id in state S
+FillOK(S, id, S1) ==
+  LET o == S.ord[id]  s == o.sym  sq == Sgn(o.side) * o.q
+      q0 == S.pq[s]  q1 == S1.pq[s]
+      closed == RefClosed(q0, q1)
+      real == IF closed = 0 THEN RI(0) ELSE RMulI(RSub(RI(o.p), S.entry[s]), IF q0 > 0 THEN closed ELSE -closed)
+      \* the fee is charged on what is filled: a reduce-only order against the position fills at most its size
+      filled == IF o.ro /\ q0 * sq < 0 THEN Min2(o.q, Abs(q0)) ELSE o.q
+  IN /\ q1 = RefQty(q0, sq, o.ro)
+     /\ RefEntryOK(q0, S.entry[s], q1, S1.entry[s], o.p)
+     /\ S1.wallet = RAdd(RSub(S.wallet, Norm(filled * o.p * FeeNum, FeeDen)), real)
+     /\ (o.ro => Abs(q1) <= Abs(q0) /\ q1 * q0 >= 0)
+     /\ \A x \in Syms \ {s} : S1.pq[x] = S.pq[x] /\ S1.entry[x] = S.entry[x]
+AvgCostStep == [][IsFill => FillOK(st, Last.id, st')]_vars
+\* pending market orders flushed together: the same per-fill statement for every fill of the flush, on the
+\* intermediate states of execute_pending_market_orders (an order that an earlier fill of the same flush closed
+\* out and cancelled must be a no-op), and the flush ends in the last of these states
+RECURSIVE FillsOK(_, _)
+FillsOK(S, ids) ==
+  IF ids = <<>> THEN TRUE
+  ELSE LET id == Head(ids)  S1 == ExecOne(S, id)
+       IN /\ IF S.ord[id].st = "A" THEN FillOK(S, id, S1)
+             ELSE <<S1.wallet, S1.pq, S1.entry, S1.ord, S1.trades, S1.temp>> = <<S.wallet, S.pq, S.entry, S.ord, S.trades, S.temp>>
+          /\ FillsOK(S1, Tail(ids))
+FlushPerFill ==
+  [][Last.op = "flush" =>
+        /\ FillsOK(Z(st), st.pending)
+        /\ LET F == ExecSeq(Z(st), st.pending) IN
+             <<st'.wallet, st'.pq, st'.entry, st'.ord>> = <<F.wallet, F.pq, F.entry, F.ord>>]_vars
 RejectIff ==
   [][Last.op = "submit" =>
         (st'.rej <=> (~Last.ro /\ RLt(RefMargin(st), Norm(Last.q * Last.p, Lev))))]_vars
